@@ -164,7 +164,13 @@ bool parseOpts(char c, vpak_t *res)
     case 1:
         if (res->ctype == -1)
         {
-            res->ctype = atoi(optarg);
+            tnum = atoi(optarg);
+            if (tnum < 0 || tnum > 127)
+            {
+                strlog("Error :", "Wrong ctype");
+                return false;
+            }
+            res->ctype = tnum;
             printCryptMode(res->ctype);
         }
         else
@@ -176,7 +182,13 @@ bool parseOpts(char c, vpak_t *res)
     case 2:
         if (res->htype == -1)
         {
-            res->htype = atoi(optarg);
+            tnum = atoi(optarg);
+            if (tnum < 0 || tnum > 127)
+            {
+                strlog("Error :", "Wrong htype");
+                return false;
+            }
+            res->htype = tnum;
             printHashMode(res->htype);
         }
         else
